@@ -9,6 +9,8 @@ for sid in sorted(os.listdir(os.path.join(ROOT, 'seeded'))):
     d = os.path.join(ROOT, 'seeded', sid)
     if not os.path.isdir(d) or (sel and not any(s in sid for s in sel)): continue
     meta = json.load(open(os.path.join(d, 'meta.json')))
+    if meta.get('retired'):
+        print(sid, 'RETIRED:', meta['retired'][:120]); continue
     exp = json.load(open(os.path.join(d, 'expect.json'))) if os.path.exists(os.path.join(d, 'expect.json')) else {meta['breaks_property']: 1}
     tmp = tempfile.mkdtemp(prefix='seedre_')
     try:
